@@ -84,6 +84,7 @@ func runC29(c *Ctx) {
 	c.rule(P, "order", "lock-order graph acyclic; no re-acquisition of the same mutex instance", 1)
 	c.rule(P, "pool-fields", "WorkerPool.taskQueue/ctx/cancel/maxWorkers are read under the lock that guards their rewrite in Resize, or are never rewritten after Start", 1)
 	runReadSize(c, P)
+	runVerbatimConfig(c, P)
 	n := 0
 	for _, s := range []protSpec{specNodeAttrs, specAttrCache, specDirCache, specHandles, specConns, specBucket, specPerIP, specPerOp, specPortmap, specLogger} {
 		n += lockRule(c, P, "lockset", s)
